@@ -311,6 +311,10 @@ class QuorumSensing:
         confidence = 1.0
         if isinstance(protein.payload, dict) and "confidence" in protein.payload:
             confidence = float(protein.payload["confidence"])
+            if math.isnan(confidence):
+                raise ValueError("confidence is not a number")
+            # A confidence is a 0-1 quantity: an out-of-range report (inf, 1e308, -1) is clamped
+            confidence = max(0.0, min(1.0, confidence))
 
         return Vote(
             agent_id=profile.agent.name,
